@@ -108,7 +108,9 @@ func verifyRawCerts(rawCerts [][]byte, certHashes []multihash.DecodedMultihash) 
 	if len(rawCerts) < 1 {
 		return errors.New("no cert")
 	}
-	leaf := rawCerts[len(rawCerts)-1]
+	// The server's own (end-entity) certificate comes first in a TLS certificate list: it is the one whose
+	// key the handshake proves possession of, and the one the certificate hashes pin.
+	leaf := rawCerts[0]
 	// The W3C WebTransport specification currently only allows SHA-256 certificates for serverCertificateHashes.
 	hash := sha256.Sum256(leaf)
 	var verified bool
